@@ -40,6 +40,7 @@ COMBINATORS = {
     "core::result::Result::<T, E>::or_else": (RES, {"Ok": ("rewrap", RES, "Ok"), "Err": ("call",)}),
     "core::bool::<impl bool>::then": ("bool", {True: ("wrap0", OPT, "Some"), False: ("unit", OPT, "None")}),
 }
+ALWAYS = ("core::option::Option::<T>::map_or",)
 VARIANTS = {OPT: ["None", "Some"], RES: ["Ok", "Err"], "core::ops::control_flow::ControlFlow": ["Continue", "Break"]}
 EFFECT_PREFIXES = ("xs::", "xsbin::", "tokio::sync::", "std::collections::hash::", "fjall::", "cacache::", "tokio::task::", "tokio::runtime::", "std::thread::",
                    "alloc::vec::Vec::<T, A>::push", "std::sync::")
@@ -242,7 +243,9 @@ def desugar_combinator(facts, body, bb):
     if cd is None:
         return None
     cb = facts.body(cd[0])
-    if cb is None or cb.is_coroutine or not effectful(facts, cb):
+    # (a pure closure stays a value - rules read `opt.map(|x| ..)` as an expression - except for `map_or`, which is a `match` with
+    # two arms that produce the value: `last_id.map_or(Bound::Unbounded, |id| Bound::Excluded(..))`)
+    if cb is None or cb.is_coroutine or not (effectful(facts, cb) or t.get("fn") in ALWAYS):
         return None
     recv = args[0]
     rpl = recv.get("move") or recv.get("copy")
